@@ -1,13 +1,17 @@
 (** Proofs about the backoff arithmetic model (Hsms/Backoff.v).
 
-    Main results
-      Backoff_next_delay_bounds   for 0 < cur <= 2^53, a multiplier that passes the option
-                                  validation (not < 1.0; NaN and +Inf included) and 0 < ceil:
+    Main results (current source, /repo commit 67dfa20)
+      Backoff_next_delay_bounds   for every 0 < cur, 0 < ceil and EVERY multiplier:
                                   min cur ceil <= nextBackoffDelay cur mult ceil <= ceil
       Backoff_sleeps_ok           the sleeps of connectLoop start at min init T5, never decrease
-                                  and never exceed T5 (init, T5 <= 2^53 ns, about 104 days)
-      Backoff_refuted_beyond_2p53 without the 2^53 bound the sequence CAN decrease:
-                                  nextBackoffDelay (2^53+1) 1.0 2^62 = 2^53
+                                  and never exceed T5 — all positive int64 init/T5, all multipliers
+    About the function before the fix (regression material)
+      Backoff_next_delay_old_bounds, Backoff_sleeps_old_ok   the same statements, which for the old
+                                  function need 0 < cur <= 2^53, T5 <= 2^53 and a validated
+                                  multiplier (this is where the Flocq reasoning is used)
+      Backoff_old_refuted_beyond_2p53   beyond 2^53 the old sequence CAN decrease:
+                                  old nextBackoffDelay (2^53+1) 1.0 2^62 = 2^53
+      Backoff_same_as_old_in_range   on the old theorem's range the fix changes nothing
 
     The real-number reasoning uses Flocq's correctness theorems for [Bmult], [binary_normalize]
     and [Btrunc]; those depend on the axioms of Coq's classical real numbers, which
@@ -100,12 +104,12 @@ Qed.
 
 (** ** one step *)
 
-Theorem Backoff_next_delay_bounds : forall cur m ceil,
+Theorem Backoff_next_delay_old_bounds : forall cur m ceil,
   0 < cur <= Backoff_two53 -> Backoff_mult_ok m = true -> 0 < ceil ->
-  Z.min cur ceil <= Backoff_next_delay cur m ceil <= ceil.
+  Z.min cur ceil <= Backoff_next_delay_old cur m ceil <= ceil.
 Proof.
   intros cur m ceil Hcur Hm Hceil.
-  unfold Backoff_next_delay. cbv zeta.
+  unfold Backoff_next_delay_old. cbv zeta.
   set (p := Backoff_mul (Backoff_of_int64 cur) m).
   destruct (Backoff_to_int64_cases p) as [E|[Fp E]].
   - rewrite E. replace (- Backoff_two63 <=? 0) with true by reflexivity. simpl. lia.
@@ -137,29 +141,29 @@ Qed.
 Lemma Backoff_cap_min : forall d t5, Backoff_cap d t5 = Z.min d t5.
 Proof. intros. unfold Backoff_cap. destruct (Z.ltb_spec t5 d); lia. Qed.
 
-Lemma Backoff_delay_range : forall init m t5 k,
+Lemma Backoff_delay_old_range : forall init m t5 k,
   0 < init <= Backoff_two53 -> Backoff_mult_ok m = true -> 0 < t5 <= Backoff_two53 ->
-  0 < Backoff_delay init m t5 k <= Backoff_two53 /\
-  (k <> O -> Backoff_delay init m t5 k <= t5).
+  0 < Backoff_delay_old init m t5 k <= Backoff_two53 /\
+  (k <> O -> Backoff_delay_old init m t5 k <= t5).
 Proof.
   intros init m t5 k Hi Hm Ht. induction k as [|k IH].
   - simpl. split; [assumption|congruence].
-  - destruct IH as [IH _]. cbn [Backoff_delay].
-    pose proof (Backoff_next_delay_bounds _ m t5 IH Hm (proj1 Ht)) as B.
+  - destruct IH as [IH _]. cbn [Backoff_delay_old].
+    pose proof (Backoff_next_delay_old_bounds _ m t5 IH Hm (proj1 Ht)) as B.
     split; [|intros _]; lia.
 Qed.
 
-Theorem Backoff_sleeps_ok : forall init m t5,
+Theorem Backoff_sleeps_old_ok : forall init m t5,
   0 < init -> Backoff_mult_ok m = true -> 0 < t5 ->
   init <= Backoff_two53 -> t5 <= Backoff_two53 ->
-  Backoff_sleep init m t5 0 = Z.min init t5 /\
-  forall k, Backoff_sleep init m t5 k <= Backoff_sleep init m t5 (S k) <= t5.
+  Backoff_sleep_old init m t5 0 = Z.min init t5 /\
+  forall k, Backoff_sleep_old init m t5 k <= Backoff_sleep_old init m t5 (S k) <= t5.
 Proof.
   intros init m t5 Hi Hm Ht Hi2 Ht2. split.
-  - unfold Backoff_sleep. simpl. apply Backoff_cap_min.
-  - intros k. unfold Backoff_sleep. rewrite !Backoff_cap_min. cbn [Backoff_delay].
-    destruct (Backoff_delay_range init m t5 k) as [R _]; try lia; try assumption.
-    pose proof (Backoff_next_delay_bounds _ m t5 R Hm Ht) as B. lia.
+  - unfold Backoff_sleep_old. simpl. apply Backoff_cap_min.
+  - intros k. unfold Backoff_sleep_old. rewrite !Backoff_cap_min. cbn [Backoff_delay_old].
+    destruct (Backoff_delay_old_range init m t5 k) as [R _]; try lia; try assumption.
+    pose proof (Backoff_next_delay_old_bounds _ m t5 R Hm Ht) as B. lia.
 Qed.
 
 (** The list form used by the drivers agrees with [Backoff_sleep]. *)
@@ -177,38 +181,40 @@ Proof.
   intros j Hj. apply (G n0 O j Hj).
 Qed.
 
-(** ** the repaired step needs no range bound and no assumption on the multiplier *)
+(** ** the current step (with the monotone clamp) needs no range bound and no assumption on the
+    multiplier: the clamp makes the bounds hold whatever the float product is *)
 
-Lemma Backoff_next_delay_repaired_bounds : forall cur m ceil, 0 < cur -> 0 < ceil ->
-  Z.min cur ceil <= Backoff_next_delay_repaired cur m ceil <= ceil.
+Theorem Backoff_next_delay_bounds : forall cur m ceil, 0 < cur -> 0 < ceil ->
+  Z.min cur ceil <= Backoff_next_delay cur m ceil <= ceil.
 Proof.
-  intros cur m ceil Hc Hl. unfold Backoff_next_delay_repaired. cbv zeta.
+  intros cur m ceil Hc Hl. unfold Backoff_next_delay. cbv zeta.
   set (n := Backoff_to_int64 _).
   destruct (Z.leb_spec n 0); [lia|].
   destruct (Z.ltb_spec n cur); [destruct (Z.ltb_spec ceil cur)|destruct (Z.ltb_spec ceil n)]; lia.
 Qed.
 
-Theorem Backoff_sleeps_repaired_ok : forall init m t5, 0 < init -> 0 < t5 ->
-  Backoff_sleep_repaired init m t5 0 = Z.min init t5 /\
-  forall k, Backoff_sleep_repaired init m t5 k <= Backoff_sleep_repaired init m t5 (S k) <= t5.
+Theorem Backoff_sleeps_ok : forall init m t5, 0 < init -> 0 < t5 ->
+  Backoff_sleep init m t5 0 = Z.min init t5 /\
+  forall k, Backoff_sleep init m t5 k <= Backoff_sleep init m t5 (S k) <= t5.
 Proof.
   intros init m t5 Hi Ht. split.
-  - unfold Backoff_sleep_repaired. simpl. apply Backoff_cap_min.
-  - intros k. unfold Backoff_sleep_repaired. rewrite !Backoff_cap_min. cbn [Backoff_delay_repaired].
-    assert (P : 0 < Backoff_delay_repaired init m t5 k).
-    { induction k as [|k IH]; [assumption|]. cbn [Backoff_delay_repaired].
-      pose proof (Backoff_next_delay_repaired_bounds _ m t5 IH Ht). lia. }
-    pose proof (Backoff_next_delay_repaired_bounds _ m t5 P Ht). lia.
+  - unfold Backoff_sleep. simpl. apply Backoff_cap_min.
+  - intros k. unfold Backoff_sleep. rewrite !Backoff_cap_min. cbn [Backoff_delay].
+    assert (P : 0 < Backoff_delay init m t5 k).
+    { induction k as [|k IH]; [assumption|]. cbn [Backoff_delay].
+      pose proof (Backoff_next_delay_bounds _ m t5 IH Ht). lia. }
+    pose proof (Backoff_next_delay_bounds _ m t5 P Ht). lia.
 Qed.
 
-(** On the range the unrepaired theorem covers, the repair changes nothing. *)
-Lemma Backoff_repaired_same_in_range : forall cur m ceil,
+(** On the range the float reasoning covers (delays up to 2^53 ns, a validated multiplier) the
+    clamp never fires: the current function equals the one before commit 67dfa20. *)
+Lemma Backoff_same_as_old_in_range : forall cur m ceil,
   0 < cur <= Backoff_two53 -> Backoff_mult_ok m = true -> 0 < ceil ->
-  Backoff_next_delay_repaired cur m ceil = Backoff_next_delay cur m ceil.
+  Backoff_next_delay cur m ceil = Backoff_next_delay_old cur m ceil.
 Proof.
   intros cur m ceil Hc Hm Hl.
-  pose proof (Backoff_next_delay_bounds cur m ceil Hc Hm Hl) as B.
-  unfold Backoff_next_delay_repaired, Backoff_next_delay in *. cbv zeta in *.
+  pose proof (Backoff_next_delay_old_bounds cur m ceil Hc Hm Hl) as B.
+  unfold Backoff_next_delay, Backoff_next_delay_old in *. cbv zeta in *.
   set (n := Backoff_to_int64 _) in *.
   destruct (Z.leb_spec n 0); [reflexivity|]. cbn [orb] in *.
   destruct (Z.ltb_spec n cur).
@@ -220,14 +226,19 @@ Qed.
 
 Definition Backoff_one_bits : Z := 4607182418800017408. (* 0x3FF0000000000000 = 1.0 *)
 
-Theorem Backoff_refuted_beyond_2p53 :
+Theorem Backoff_old_refuted_beyond_2p53 :
   exists init m t5, 0 < init /\ Backoff_mult_ok m = true /\ 0 < t5 /\
-    Backoff_sleep init m t5 1 < Backoff_sleep init m t5 0.
+    Backoff_sleep_old init m t5 1 < Backoff_sleep_old init m t5 0.
 Proof.
   exists (Backoff_two53 + 1), (Backoff_f64_of_bits Backoff_one_bits), (2 ^ 62).
   vm_compute. repeat split; reflexivity.
 Qed.
 
-Theorem Backoff_refuted_witness :
-  Backoff_next_delay_bits (Backoff_two53 + 1) Backoff_one_bits (2 ^ 62) = Backoff_two53.
+Theorem Backoff_old_refuted_witness :
+  Backoff_next_delay_old_bits (Backoff_two53 + 1) Backoff_one_bits (2 ^ 62) = Backoff_two53.
+Proof. vm_compute. reflexivity. Qed.
+
+(** the same input on the current function: no decrease *)
+Theorem Backoff_regression_2p53 :
+  Backoff_next_delay_bits (Backoff_two53 + 1) Backoff_one_bits (2 ^ 62) = Backoff_two53 + 1.
 Proof. vm_compute. reflexivity. Qed.
